@@ -400,76 +400,93 @@ def glue : Handler → Nat → Nat → Bool
 
 /-- Terminal pairs (last terminal of the left argument, first terminal of the right one)
 between which the handler inserts a blank although it glues the two arguments otherwise:
-`_additive_expression_right` tests `operator == "-" and operand.startswith("-")`. -/
-def keptApart : Handler → String → String → Bool
-  | .additiveExpressionRight, x, y => x == "\"-\"" && y == "\"-\""
+`_additive_expression_right` tests `operator == "-" and operand.startswith("-")`
+(`minus` = the terminal `"-"`). -/
+def keptApart {α : Type} [DecidableEq α] (minus : α) : Handler → α → α → Bool
+  | .additiveExpressionRight, x, y => x == minus && y == minus
   | _, _, _ => false
 
-abbrev Grammar := List (String × List String)
+/-! The computation is generic in the type of symbols (it is run on the table of strings
+by the compiled checker, ops `GLUE`/`GLUECHECK`: obligation `C11_render_separable`.  A
+kernel evaluation on an interned copy was tried and dropped: the kernel's call-by-name
+evaluation recomputes the FIRST/LAST fixpoints at every use, > 15 min). -/
 
-def addAll (acc : List String) (l : List String) : List String :=
+abbrev Gram (α : Type) := List (α × List α)
+/-- A registry entry with its handler resolved. -/
+abbrev GEntry (α : Type) := α × List α × Option Handler
+
+section Generic
+variable {α : Type} [DecidableEq α]
+
+def addAll (acc : List α) (l : List α) : List α :=
   l.foldl (fun a x => if a.contains x then a else a ++ [x]) acc
 
-/-- Symbols that can derive the empty token sequence. -/
-def nullableSyms (g : Grammar) : List String :=
-  let step (ns : List String) : List String :=
-    addAll ns ((g.filter (fun p => p.2.all ns.contains)).map (·.1))
-  (List.range g.length).foldl (fun ns _ => step ns) []
+/-- Apply `step` until nothing changes, at most `fuel` times. -/
+def iterFix {β : Type} [DecidableEq β] (step : β → β) : Nat → β → β
+  | 0, x => x
+  | n + 1, x => let y := step x; if y = x then x else iterFix step n y
 
-def lookupSet (m : List (String × List String)) (s : String) : List String :=
+def nullableStep (g : Gram α) (ns : List α) : List α :=
+  addAll ns ((g.filter (fun p => p.2.all ns.contains)).map (·.1))
+
+/-- Symbols that can derive the empty token sequence. -/
+def nullableSyms (g : Gram α) : List α := iterFix (nullableStep g) g.length []
+
+def lookupSet (m : List (α × List α)) (s : α) : List α :=
   match m.find? (fun p => p.1 == s) with
   | some p => p.2
   | none => []
 
-def isNonterminal (g : Grammar) (s : String) : Bool := g.any (fun p => p.1 == s)
+def isNonterminal (g : Gram α) (s : α) : Bool := g.any (fun p => p.1 == s)
 
 /-- Terminals that can begin a derivation of the symbol sequence `rhs`. -/
-def firstOfSeq (g : Grammar) (ns : List String) (m : List (String × List String)) : List String → List String
+def firstOfSeq (g : Gram α) (ns : List α) (m : List (α × List α)) : List α → List α
   | [] => []
   | s :: rest =>
     let here := if isNonterminal g s then lookupSet m s else [s]
     if ns.contains s then addAll here (firstOfSeq g ns m rest) else here
 
-def setInsert (m : List (String × List String)) (k : String) (vs : List String) : List (String × List String) :=
+def setInsert (m : List (α × List α)) (k : α) (vs : List α) : List (α × List α) :=
   if m.any (fun p => p.1 == k) then m.map (fun p => if p.1 == k then (p.1, addAll p.2 vs) else p)
   else m ++ [(k, addAll [] vs)]
 
-/-- FIRST sets (`rev = false`) or LAST sets (`rev = true`) of all nonterminals. -/
-def edgeSets (g : Grammar) (rev : Bool) : List (String × List String) :=
-  let ns := nullableSyms g
-  let step (m : List (String × List String)) : List (String × List String) :=
-    g.foldl (fun m p => setInsert m p.1 (firstOfSeq g ns m (if rev then p.2.reverse else p.2))) m
-  (List.range g.length).foldl (fun m _ => step m) []
+def edgeStep (g : Gram α) (ns : List α) (rev : Bool) (m : List (α × List α)) : List (α × List α) :=
+  g.foldl (fun m p => setInsert m p.1 (firstOfSeq g ns m (if rev then p.2.reverse else p.2))) m
 
-def symEdge (g : Grammar) (m : List (String × List String)) (s : String) : List String :=
+/-- FIRST sets (`rev = false`) or LAST sets (`rev = true`) of all nonterminals. -/
+def edgeSets (g : Gram α) (rev : Bool) : List (α × List α) :=
+  iterFix (edgeStep g (nullableSyms g) rev) g.length []
+
+def symEdge (g : Gram α) (m : List (α × List α)) (s : α) : List α :=
   if isNonterminal g s then lookupSet m s else [s]
+
+def leadOkSeq (ns S : List α) (rhs : List α) : Bool :=
+  (rhs.foldl (fun (st : Bool × Bool) s =>
+    -- st = (still scanning, verdict so far)
+    if !st.1 then st
+    else if !S.contains s then (false, false)
+    else if ns.contains s then (true, true) else (false, true)) (true, true)).2
+
+def leadOkEntry (ns S : List α) (e : GEntry α) : Bool :=
+  match e.2.2 with
+  | some .concatenateWithPrefixSpaces => true
+  | some .emptyString => true
+  | some .concatenate => leadOkSeq ns S e.2.1
+  | some .identity => leadOkSeq ns S e.2.1
+  | _ => false
+
+def leadStep (tbl : List (GEntry α)) (ns S : List α) : List α :=
+  S.filter (fun s => (tbl.filter (fun e => e.1 == s)).all (leadOkEntry ns S))
 
 /-- Symbols whose rendering, when non-empty, always begins with a blank (results of
 `_concatenate_with_prefix_spaces`, and concatenations/identities that begin with such a
 symbol): greatest fixpoint. -/
-def leadBlankSyms (tbl : Table) (g : Grammar) : List String :=
-  let ns := nullableSyms g
-  let okSeq (S : List String) : List String → Bool :=
-    fun rhs => (rhs.foldl (fun (st : Bool × Bool) s =>
-      -- st = (still scanning, verdict so far)
-      if !st.1 then st
-      else if !S.contains s then (false, false)
-      else if ns.contains s then (true, true) else (false, true)) (true, true)).2
-  let okEntry (S : List String) (e : String × List String × String × Bool) : Bool :=
-    match resolve e with
-    | some .concatenateWithPrefixSpaces => true
-    | some .emptyString => true
-    | some .concatenate => okSeq S e.2.1
-    | some .identity => okSeq S e.2.1
-    | _ => false
-  let step (S : List String) : List String :=
-    S.filter (fun s => (tbl.filter (fun e => e.1 == s)).all (okEntry S))
-  (List.range g.length).foldl (fun S _ => step S) (addAll [] (g.map (·.1)))
+def leadBlankSyms (tbl : List (GEntry α)) (g : Gram α) : List α :=
+  iterFix (leadStep tbl (nullableSyms g)) g.length (addAll [] (g.map (·.1)))
 
-def pairsOfEntry (tbl : Table) (g : Grammar) (ns : List String) (fs ls : List (String × List String))
-    (lead : List String)
-    (e : String × List String × String × Bool) : List (String × String) :=
-  match resolve e with
+def pairsOfEntry (minus : α) (g : Gram α) (ns : List α) (fs ls : List (α × List α))
+    (lead : List α) (e : GEntry α) : List (α × α) :=
+  match e.2.2 with
   | none => []
   | some h =>
     let rhs := e.2.1
@@ -481,17 +498,39 @@ def pairsOfEntry (tbl : Table) (g : Grammar) (ns : List String) (fs ls : List (S
           | some a, some b =>
             if lead.contains b then [] else
             (symEdge g ls a).flatMap fun x =>
-              ((symEdge g fs b).filter fun y => !keptApart h x y).map fun y => (x, y)
+              ((symEdge g fs b).filter fun y => !keptApart minus h x y).map fun y => (x, y)
           | _, _ => []
         else []
 
 /-- Every terminal pair some handler can print without a blank in between. -/
-def gluedPairs (tbl : Table) (g : Grammar) : List (String × String) :=
+def gluedPairsG (minus : α) (tbl : List (GEntry α)) : List (α × α) :=
+  let g : Gram α := tbl.map (fun e => (e.1, e.2.1))
   let ns := nullableSyms g
   let fs := edgeSets g false
   let ls := edgeSets g true
   let lead := leadBlankSyms tbl g
-  (tbl.flatMap (pairsOfEntry tbl g ns fs ls lead)).foldl (fun a x => if a.contains x then a else a ++ [x]) []
+  (tbl.flatMap (pairsOfEntry minus g ns fs ls lead)).foldl (fun a x => if a.contains x then a else a ++ [x]) []
+
+/-- The four fixpoint computations did reach a fixpoint (they are cut off after as many
+rounds as there are productions). -/
+def fixpointsReached (tbl : List (GEntry α)) : Bool :=
+  let g : Gram α := tbl.map (fun e => (e.1, e.2.1))
+  let ns := nullableSyms g
+  decide (nullableStep g ns = ns) &&
+  decide (edgeStep g ns false (edgeSets g false) = edgeSets g false) &&
+  decide (edgeStep g ns true (edgeSets g true) = edgeSets g true) &&
+  decide (leadStep tbl ns (leadBlankSyms tbl g) = leadBlankSyms tbl g)
+
+end Generic
+
+abbrev Grammar := Gram String
+
+def minusSym : String := "\"-\""
+
+def resolved (tbl : Table) : List (GEntry String) := tbl.map (fun e => (e.1, e.2.1, resolve e))
+
+/-- On the table of strings (the productions of the registry are the grammar: `C11_table_ok`). -/
+def gluedPairs (tbl : Table) : List (String × String) := gluedPairsG minusSym (resolved tbl)
 
 def allowedGlued : List (String × String) := [
   ("\"[\"", "\"(\""),
@@ -735,10 +774,11 @@ def allowedGlued : List (String × String) := [
   ("Number", "\"[\"")
 ]
 
-/-- The separability obligation on the regenerated table: every terminal pair some handler
-prints with nothing in between is in the audited list (none of whose pairs the tokenizer
-merges or splits differently — sampled on the real tokenizer on every run). -/
-def gluedOK (tbl : Table) (g : Grammar) : Bool :=
-  (gluedPairs tbl g).all (fun p => allowedGlued.contains p)
+/-- The separability obligation on the regenerated table: the fixpoint computations
+converged, and every terminal pair some handler prints with nothing in between is in the
+audited list (none of whose pairs the tokenizer merges or splits differently — sampled on
+the real tokenizer on every run). -/
+def gluedOK (tbl : Table) : Bool :=
+  fixpointsReached (resolved tbl) && (gluedPairs tbl).all (fun p => allowedGlued.contains p)
 
 end Emboss.Fmt
